@@ -772,3 +772,55 @@ pub fn record_fen(opts: &Opts) -> i32 {
     t.summary(json!({}));
     0
 }
+
+// ------------------------------------------------------------------------------------------------
+// C05: the clock sweep (lines generated by spec/ClockSweep.tla)
+// ------------------------------------------------------------------------------------------------
+
+pub fn replay_clocks(_opts: &Opts) -> i32 {
+    let stdin = std::io::stdin();
+    let mut lines = 0u64;
+    let mut mism = 0u64;
+    for line in stdin.lock().lines() {
+        let Ok(line) = line else { break };
+        let Some(rec) = unwrap_tlc_line(&line, "CLK") else { continue };
+        lines += 1;
+        let fen = rec["fen"].as_str().unwrap_or("");
+        op!("replay-clocks {fen}");
+        match fen.parse::<Board>() {
+            Err(e) => {
+                mism += 1;
+                out_line("MISMATCH", &json!({"prop": "C05", "kind": "clock-text-rejected", "case": fen, "exp": "accepted", "got": format!("{e:?}")}));
+            }
+            Ok(b) => {
+                let got = json!([b.half_move_clock(), b.full_move_clock(), b.to_string()]);
+                let want = json!([rec["hm"], rec["fm"], fen]);
+                if got != want {
+                    mism += 1;
+                    out_line("MISMATCH", &json!({"prop": "C05", "kind": "clock-round-trip", "case": fen, "exp": want, "got": got}));
+                }
+                // the builder with the same clocks writes the same text
+                let mut bb = Board::builder();
+                for i in 0..64u8 {
+                    if let Some((c, p)) = b.raw().get(sq(i)) {
+                        let _ = bb.place(sq(i), c, p);
+                    }
+                }
+                bb.turn(b.turn());
+                bb.half_move_clock(rec["hm"].as_u64().unwrap_or(0) as u16);
+                bb.full_move_clock(rec["fm"].as_u64().unwrap_or(0) as u16);
+                use chess_bitboard::Side;
+                bb.castle_rights(chess_movegen::CastleRights::empty().with(Side::Queen, Color::White).with(Side::King, Color::Black));
+                match bb.build() {
+                    Ok(built) if built.to_string() == fen && built == b => {}
+                    other => {
+                        mism += 1;
+                        out_line("MISMATCH", &json!({"prop": "C05", "kind": "clock-builder", "case": fen, "exp": fen, "got": other.map(|x| x.to_string()).map_err(|e| format!("{e:?}"))}));
+                    }
+                }
+            }
+        }
+    }
+    out_line("SUMMARY", &json!({"counts": {"lines": lines}, "distinct": lines, "nontrivial": lines, "mismatches": mism, "samples": [], "extra": {}}));
+    0
+}
